@@ -733,6 +733,8 @@ fn graph_distance(a: &Graph, b: &Graph) -> usize {
 }
 
 struct StepOut {
+    fingerprint: u128,
+    nontrivial: bool,
     parent: usize,
     result: ConfigResult,
     step: StepRec,
@@ -758,6 +760,8 @@ pub fn run_universe(spec: &Spec, uni: &Universe, coll: &Mutex<Collector>, limits
     let mut frontier: Vec<usize> = vec![0];
     let versions_of: Vec<Vec<Vec<u8>>> = uni.graphs.iter().map(version_vectors).collect();
     let mut local = Counters::default();
+    let seen_cfg: Mutex<std::collections::HashSet<u128>> = Mutex::new(std::collections::HashSet::new());
+    let mut fingerprints: Vec<(u128, bool)> = Vec::new();
     for step in 0..spec.depth {
         if limits.stop.load(Ordering::Relaxed) {
             break;
@@ -809,7 +813,13 @@ pub fn run_universe(spec: &Spec, uni: &Universe, coll: &Mutex<Collector>, limits
                     disk.remove(d);
                 }
                 let cfg = make_cfg(spec, g, versions, &w.hist, &disk, step, [0, 0]);
+                let fingerprint = cfg.fingerprint();
+                if !seen_cfg.lock().unwrap().insert(fingerprint) {
+                    // the same configuration was reached from another world + deletion set
+                    return Ok(None);
+                }
                 let mut result = analyze(&cfg, spec, faults)?;
+                let nontrivial = result.counters.states >= 3;
                 if step + 1 == spec.depth && result.terminals.len() > 1 {
                     // last level: terminals are only needed as a sample
                     let last = result.terminals.pop_last().unwrap();
@@ -819,6 +829,8 @@ pub fn run_universe(spec: &Spec, uni: &Universe, coll: &Mutex<Collector>, limits
                     result.terminals.insert(last.0, last.1);
                 }
                 Ok(Some(StepOut {
+                    fingerprint,
+                    nontrivial,
                     parent: *wi,
                     result,
                     step: StepRec {
@@ -844,6 +856,7 @@ pub fn run_universe(spec: &Spec, uni: &Universe, coll: &Mutex<Collector>, limits
             };
             local.merge(&so.result.counters);
             ex_local.merge(&so.result.ex);
+            fingerprints.push((so.fingerprint, so.nontrivial));
             let chain = provenance(&worlds, so.parent);
             if !so.result.viol.is_empty() {
                 for (v, stage, evs) in so.result.viol.iter() {
@@ -903,6 +916,11 @@ pub fn run_universe(spec: &Spec, uni: &Universe, coll: &Mutex<Collector>, limits
         {
             let mut c = coll.lock().unwrap();
             c.ex.merge(&ex_local);
+            for (fp, nt) in fingerprints.drain(..) {
+                if c.seen_cfg.insert(fp) && nt {
+                    c.distinct_nontrivial += 1;
+                }
+            }
             for r in reports {
                 c.add_report(r);
             }
